@@ -80,6 +80,13 @@ OPAQUE = {
         "attrs": {},
         "methods": {"time": ([], "Frac1000", "loop_time_ms")},
     },
+    "CacheHandle": {
+        # the `DNSCache` as `_QueryResponse` holds it: only handed to `_get_unique_ignoring_scope`, an environment function there
+        "lean": "Unit",
+        "immutable": True,
+        "always_truthy": True,
+        "attrs": {},
+    },
     "TimerHandle": {
         # an `asyncio.TimerHandle`: what `call_later` / `call_at` return; `cancel()` is an effect
         "lean": "Unit",
